@@ -15,8 +15,10 @@
 //!
 //!   pool random <runs> <out.ndjson> [maxN] [maxTasks]     summary on stdout
 //!   pool gated  <out.ndjson>   < behaviours.jsonl         one result line per behaviour + summary
+use humphrey::monitor::event::{Event, EventType};
+use humphrey::monitor::MonitorConfig;
 use humphrey::thread::pool::ThreadPool;
-use hv::util::{out_line, quiet_panics, seed_from_env, stdin_lines, Rng};
+use hv::util::{fnv64, out_line, quiet_panics, seed_from_env, stdin_lines, Rng};
 use serde_json::{json, Value};
 use std::collections::{HashMap, VecDeque};
 use std::io::Write;
@@ -226,7 +228,7 @@ fn make_task(t: i64, kind: u8, work: u64, c: Arc<Counters>) -> impl FnOnce() + S
 }
 
 enum Cmd {
-    New(usize),
+    New(usize, Option<MonitorConfig>),
     Start,
     Exec(i64, u8, u64),
     Stop,
@@ -245,7 +247,13 @@ fn spawn_caller(c: Arc<Counters>, kinds: Arc<Vec<u8>>) -> (Sender<Cmd>, std::thr
             let mut pool: Option<ThreadPool> = None;
             for cmd in rx {
                 match cmd {
-                    Cmd::New(n) => pool = Some(ThreadPool::new(n)),
+                    Cmd::New(n, monitor) => {
+                        let mut p = ThreadPool::new(n);
+                        if let Some(m) = monitor {
+                            p.register_monitor(m);
+                        }
+                        pool = Some(p);
+                    }
                     Cmd::Start => pool.as_mut().unwrap().start(),
                     Cmd::Exec(t, kind, work) => {
                         lock().cur_task = t;
@@ -371,6 +379,8 @@ fn random_mode(args: &[String]) {
     let mut hang: Option<Value> = None;
     let mut runs_done = 0usize;
     let mut recovery_threads = 0usize;
+    let mut fingerprints: Vec<String> = Vec::new();
+    let mut monitored_runs = 0usize;
     for run in 0..runs {
         let n = if rng.chance(1, 2) { rng.range(1, 3.min(max_n)) } else { rng.range(1, max_n) };
         let started = !rng.chance(1, 25);
@@ -412,7 +422,17 @@ fn random_mode(args: &[String]) {
         if started {
             recovery_threads += 1;
         }
-        let mut cmds: Vec<Cmd> = vec![Cmd::New(n)];
+        // a third of the runs also listens to Humphrey's own monitor stream (hook-free second source):
+        // the number of ThreadRestarted events per worker id must equal the model's incarnation counter
+        let monitored = started && rng.chance(1, 3);
+        let (mon_tx, mon_rx) = channel::<Event>();
+        let monitor = if monitored {
+            Some(MonitorConfig::new(mon_tx).with_subscription_to(EventType::ThreadRestarted))
+        } else {
+            drop(mon_tx);
+            None
+        };
+        let mut cmds: Vec<Cmd> = vec![Cmd::New(n, monitor)];
         if started {
             cmds.push(Cmd::Start);
             for t in 1..=tasks {
@@ -472,10 +492,48 @@ fn random_mode(args: &[String]) {
                 break;
             }
         }
+        if monitored {
+            let respawns = lock().events.iter().filter(|e| e.ev == "Rec_Respawn").count();
+            let mut restarted = vec![0i64; n];
+            let mut seen = 0usize;
+            let t0 = Instant::now();
+            while seen < respawns && t0.elapsed() < Duration::from_secs(5) {
+                if let Ok(ev) = mon_rx.recv_timeout(Duration::from_millis(20)) {
+                    if ev.kind == EventType::ThreadRestarted {
+                        let id = ev.info.as_deref().and_then(|i| i.split_whitespace().nth(1)).and_then(|x| x.parse::<usize>().ok());
+                        if let Some(id) = id {
+                            if id < n {
+                                restarted[id] += 1;
+                            }
+                        }
+                        seen += 1;
+                    }
+                }
+            }
+            while let Ok(ev) = mon_rx.try_recv() {
+                if ev.kind == EventType::ThreadRestarted {
+                    seen += 1; // more restarts than respawns: reported below through the count of worker 0
+                    restarted[0] += 1;
+                }
+            }
+            for (w, c) in restarted.iter().enumerate() {
+                driver_event("Mon_Restarted", w as i64, *c);
+            }
+            monitored_runs += 1;
+        }
         let entered = (1..=tasks).filter(|t| counters.ran(*t) == 1).count();
         driver_event("Quiesced", entered as i64, live_workers() as i64);
         flush_run(&mut out, n, tasks, &pan);
         let nev = lock().events.len();
+        if tasks > 0 {
+            // fingerprint of the interleaving (who reported what, in which order) - counted by the driver
+            let st = lock();
+            let mut bytes = Vec::with_capacity(st.events.len() * 8);
+            for e in &st.events {
+                bytes.extend_from_slice(format!("{}:{}:{}:{};", e.th, e.ev, e.a, e.b).as_bytes());
+            }
+            fingerprints.push(format!("{:016x}", fnv64(&bytes)));
+        }
         total_events += nev;
         total_tasks += tasks;
         total_panics += pan.len();
@@ -488,7 +546,8 @@ fn random_mode(args: &[String]) {
         runs_done += 1;
     }
     out_line(&json!({"summary": true, "mode": "random", "runs": runs_done, "events": total_events, "tasks": total_tasks,
-                     "panicking_tasks": total_panics, "distinct_shapes": shapes.len(), "hang": hang, "samples": samples}));
+                     "panicking_tasks": total_panics, "distinct_shapes": shapes.len(), "hang": hang, "samples": samples, "fingerprints": fingerprints,
+                     "monitored_runs": monitored_runs}));
     std::process::exit(0);
 }
 
@@ -583,7 +642,7 @@ fn run_behaviour(id: i64, b: &Value, out: &mut std::fs::File, recovery_threads: 
         tx.send(c).ok();
         *sent += 1;
     };
-    send(Cmd::New(n), &mut sent);
+    send(Cmd::New(n, None), &mut sent);
     let mut proj = Proj { cpc: "new".into(), wpc: vec!["absent".into(); n], ran: vec![0; tasks], done: vec![0; tasks] };
     let mut fail: Option<Value> = None;
     let mut done_steps = 0usize;
